@@ -404,3 +404,101 @@ Definition ddl_equiv_top (a b : top) : Prop :=
   | ModifyTableOps t s l, ModifyTableOps t' s' l' => t = t' /\ s = s' /\ Forall2 ddl_equiv l l'
   | _, _ => False
   end.
+
+(* ------------------------------------------------------------------ to_diff_tuple / OpContainer.as_diffs *)
+
+(* one entry of AlterColumnOp.to_diff_tuple(): (name, schema, table, column, {the other existing_*}, existing, modify) *)
+Inductive adiff :=
+| ModifyType (s : option str) (t c : str) (en : option bool) (esd : tri tok) (ec : option str) (et : option tok) (mt : tok)
+| ModifyNullable (s : option str) (t c : str) (et : option tok) (esd : tri tok) (ec : option str) (en : option bool) (mn : bool)
+| ModifyDefault (s : option str) (t c : str) (en : option bool) (et : option tok) (ec : option str) (esd : tri tok) (msd : option tok)
+| ModifyComment (s : option str) (t c : str) (en : option bool) (et : option tok) (esd : tri tok) (ec : option str) (mc : option str).
+
+Inductive difft :=
+| DfAddConstraint (c : constr) | DfAddFk (c : constr)                   (* "add_constraint" / "add_fk" *)
+| DfRemoveConstraint (c : constr) | DfRemoveFk (c : constr)              (* "remove_constraint" / "remove_fk" *)
+| DfAddIndex (i : index) | DfRemoveIndex (i : index)
+| DfAddTable (t : tdesc) | DfRemoveTable (t : tdesc)
+| DfAddTableComment (t : str) (s : option str) (c : option str) (existing : option str)   (* (.., to_table(), existing_comment) *)
+| DfRemoveTableComment (t : str) (s : option str)
+| DfAlter (l : list adiff)                                               (* the list AlterColumnOp returns is one element *)
+| DfAddColumn (s : option str) (t : str) (c : column)
+| DfRemoveColumn (s : option str) (t : str) (c : column)
+| DfExecute (sql : tok).
+
+Definition alter_diffs (a : altercol) : list adiff :=
+  let s := ac_schema a in let t := ac_table a in let c := ac_column a in
+  (match ac_modify_type a with
+   | Some m => [ModifyType s t c (ac_existing_nullable a) (ac_existing_server_default a) (ac_existing_comment a) (ac_existing_type a) m]
+   | None => [] end) ++
+  (match ac_modify_nullable a with
+   | Some m => [ModifyNullable s t c (ac_existing_type a) (ac_existing_server_default a) (ac_existing_comment a) (ac_existing_nullable a) m]
+   | None => [] end) ++
+  (match ac_modify_server_default a with
+   | SetTo m => [ModifyDefault s t c (ac_existing_nullable a) (ac_existing_type a) (ac_existing_comment a) (ac_existing_server_default a) m]
+   | Unset => [] end) ++
+  (match ac_modify_comment a with
+   | SetTo m => [ModifyComment s t c (ac_existing_nullable a) (ac_existing_type a) (ac_existing_server_default a) (ac_existing_comment a) m]
+   | Unset => [] end).
+
+Definition is_fk (c : constr) : bool := match c with CFk _ _ _ _ _ _ _ _ _ => true | _ => false end.
+
+Definition to_diff_tuple (o : op) : res difft :=
+  match o with
+  | AddConstraintOp a => let c := to_constraint a in Ok (if is_fk c then DfAddFk c else DfAddConstraint c)
+  | DropConstraintOp n t ty s rev =>
+      match rev with
+      | Some a => let c := retarget n t s (to_constraint a) in
+                  Ok (match ty with Some TyForeignKey => DfRemoveFk c | _ => DfRemoveConstraint c end)
+      | None => Err ValueError                     (* to_constraint(): "original constraint is not present" *)
+      end
+  | CreateIndexOp c => Ok (DfAddIndex (to_index c))
+  | DropIndexOp n t s _ ku kw rev => Ok (DfRemoveIndex (drop_to_index n t s ku kw rev))
+  | CreateTableOp t _ ci => Ok (DfAddTable (create_to_table t ci))
+  | DropTableOp n s _ c p kw rev => Ok (DfRemoveTable (drop_to_table n s c p kw rev))
+  | CreateTableCommentOp t c e s => Ok (DfAddTableComment t s c e)
+  | DropTableCommentOp t _ s => Ok (DfRemoveTableComment t s)
+  | AlterColumnOp a => Ok (DfAlter (alter_diffs a))
+  | AddColumnOp t c s => Ok (DfAddColumn s t c)
+  | DropColumnOp t cn s _ rev => Ok (DfRemoveColumn s t (drop_to_column cn rev))
+  | ExecuteSQLOp q => Ok (DfExecute q)
+  | RenameTableOp _ _ _ | BulkInsertOp _ _ => Err NotImplementedError     (* MigrateOperation.to_diff_tuple *)
+  end.
+
+(* OpContainer._ops_as_diffs: containers are flattened, leaves give their tuple *)
+Definition as_diffs (l : list top) : res (list difft) :=
+  bind (mapM (fun x => match x with
+                       | Leaf o => bind (to_diff_tuple o) (fun d => Ok [d])
+                       | ModifyTableOps _ _ ops => mapM to_diff_tuple ops
+                       end) l)
+       (fun ls => Ok (concat ls)).
+
+(* the name in first position of a diff tuple *)
+Inductive dtag := TgAddConstraint | TgAddFk | TgRemoveConstraint | TgRemoveFk | TgAddIndex | TgRemoveIndex | TgAddTable | TgRemoveTable
+                | TgAddTableComment | TgRemoveTableComment | TgAddColumn | TgRemoveColumn | TgExecute
+                | TgModifyType | TgModifyNullable | TgModifyDefault | TgModifyComment.
+Definition adiff_tag (d : adiff) : dtag :=
+  match d with ModifyType _ _ _ _ _ _ _ _ => TgModifyType | ModifyNullable _ _ _ _ _ _ _ _ => TgModifyNullable
+             | ModifyDefault _ _ _ _ _ _ _ _ => TgModifyDefault | ModifyComment _ _ _ _ _ _ _ _ => TgModifyComment end.
+Definition diff_tags (d : difft) : list dtag :=
+  match d with
+  | DfAddConstraint _ => [TgAddConstraint] | DfAddFk _ => [TgAddFk]
+  | DfRemoveConstraint _ => [TgRemoveConstraint] | DfRemoveFk _ => [TgRemoveFk]
+  | DfAddIndex _ => [TgAddIndex] | DfRemoveIndex _ => [TgRemoveIndex]
+  | DfAddTable _ => [TgAddTable] | DfRemoveTable _ => [TgRemoveTable]
+  | DfAddTableComment _ _ _ _ => [TgAddTableComment] | DfRemoveTableComment _ _ => [TgRemoveTableComment]
+  | DfAlter l => map adiff_tag l
+  | DfAddColumn _ _ _ => [TgAddColumn] | DfRemoveColumn _ _ _ => [TgRemoveColumn]
+  | DfExecute _ => [TgExecute]
+  end.
+(* what compare_metadata reports for the opposite change; table comments: setting and removing are one family *)
+Definition inverse_tag (t : dtag) : dtag :=
+  match t with
+  | TgAddConstraint => TgRemoveConstraint | TgRemoveConstraint => TgAddConstraint
+  | TgAddFk => TgRemoveFk | TgRemoveFk => TgAddFk
+  | TgAddIndex => TgRemoveIndex | TgRemoveIndex => TgAddIndex
+  | TgAddTable => TgRemoveTable | TgRemoveTable => TgAddTable
+  | TgAddColumn => TgRemoveColumn | TgRemoveColumn => TgAddColumn
+  | t => t
+  end.
+Definition comment_family (t : dtag) : dtag := match t with TgRemoveTableComment => TgAddTableComment | t => t end.
